@@ -137,6 +137,13 @@ def version():
     return list(v.encode())
 
 
+def skip_buf():
+    text = strip_comments(src("src/protocol/binary_connection.rs"))
+    a = text.index("fn skip_bytes")
+    m = re.search(r"let\s+buffer_size\s*=\s*([0-9_]+)\s*\*\s*([0-9_]+)\s*;", text[a:a + 600])
+    return num(m.group(1)) * num(m.group(2))
+
+
 def lean_opt(v, f):
     return "none" if v is None else "some " + f(v)
 
@@ -151,6 +158,7 @@ e = section("errors", errors)
 l = section("limits", limits)
 o = section("opcode_max", opcode_max)
 v = section("version", version)
+sb = section("skip_buf", skip_buf)
 
 out = f'''/-!
 GENERATED by tools/gentables.py from the memc-rs source on every run of a check — do not edit.
@@ -179,6 +187,9 @@ def opcodeMax : Option Nat := {lean_opt(o, str)}
 
 /-- crate version (`MEMCRS_VERSION = crate_version!()`), as bytes -/
 def version : Option (List UInt8) := {lean_opt(v, lst)}
+
+/-- `skip_bytes`: size of the scratch buffer of the discard loop -/
+def skipBuf : Option Nat := {lean_opt(sb, str)}
 
 end Memc.Gen
 '''
